@@ -23,7 +23,7 @@ _tok = re.compile(r'''\s*(?:
     (?P<int>-?\d+)|
     (?P<str>"(?:[^"\\]|\\.)*")|
     (?P<id>[A-Za-z_][A-Za-z_0-9]*)|
-    (?P<op><<|>>|\|->|:>|@@|[\[\]{}(),])
+    (?P<op><<|>>|\|->|:>|@@|\.\.|[\[\]{}(),])
 )''', re.X)
 
 
@@ -64,6 +64,10 @@ class _P:
     def value(self):
         k, x = self.next()
         if k == "int":
+            if self.peek()[1] == "..":
+                self.next()
+                k2, y = self.next()
+                return frozenset(range(int(x), int(y) + 1))
             return int(x)
         if k == "str":
             return bytes(x[1:-1], "utf-8").decode("unicode_escape") if "\\" in x else x[1:-1]
